@@ -221,3 +221,17 @@ Proof.
   apply ordered_dest_is_merge_spec_gen; try assumption; try (apply frame_wf_idx_len_ok; assumption).
   intros Hw. split; [exact (Hu Hw)|apply frame_wf_sel; assumption].
 Qed.
+
+(* the hypotheses of ordered_dest_is_merge_spec_gen are satisfiable in both cases *)
+Example rows_hyps_example :
+  (v_writes_l (sel_variant 0 false false) = true /\ len [1;1;2;3;3] <= merge_invalid false false 5 5 /\
+   idx_len_ok 5 [([120;97], CIdx [0;1;1;3;4;6] [97;99;99;100;101;101])]) /\
+  (v_writes_l (sel_variant 0 false true) = false /\ ssortedb (sel_b 0 [1;2;2;5] [0;2;3;4]) = true /\
+   len [1;2;2;5] <= merge_invalid false true 4 4 /\
+   frame_wf (len (sel_a 0 [1;2;2;5] [0;2;3;4])) (sel_acols 0 [([120;97], CIdx [0;1;1;3;4] [97;99;99;100])] [])).
+Proof.
+  split; [split; [reflexivity|split; [vm_compute; congruence|]]|split; [reflexivity|split; [reflexivity|split; [vm_compute; congruence|]]]].
+  - intros f [<-|[]]. reflexivity.
+  - intros f [<-|[]]. cbn [snd]. split; [|reflexivity].
+    split; [vm_compute; congruence|]. split; [reflexivity|]. split; [apply sortedb_sorted; reflexivity|reflexivity].
+Qed.
